@@ -121,6 +121,19 @@ def _check_pairs(ctx, zoo, sig_of, kind, interchange):
             ps = list(itertools.combinations(idxs, 2))
             rnd.shuffle(ps)
             pairs += ps[:40]
+    # objects whose texts differ only in case / blanks / quote style are candidates as well
+    tb = {}
+    for i, x in enumerate(zoo):
+        try:
+            key = "".join(str(x).lower().split()).replace("'", '"')
+        except Exception:  # noqa: BLE001
+            continue
+        tb.setdefault((type(x).__name__, key), []).append(i)
+    for idxs in tb.values():
+        if len(idxs) > 1:
+            ps = list(itertools.combinations(idxs, 2))
+            rnd.shuffle(ps)
+            pairs += ps[:20]
     n = len(zoo)
     for _ in range(min(600, n * 3)):
         i, j = rnd.randrange(n), rnd.randrange(n)
@@ -205,7 +218,15 @@ def _spec_part(ctx):
               S.parse_version_specifier("~=1.2"), S.parse_version_specifier(">=1.2,<2.0"), S.parse_version_specifier("==1.*"),
               S.parse_version_specifier(">=1.0,<2.0"), S.parse_version_specifier(">=1.0.0,<2"),
               S.GenericSpecifier("==", "a"), S.GenericSpecifier("==", "a"), S.GenericSpecifier("in", "a"),
-              S.ArbitrarySpecifier("1.0"), S.ArbitrarySpecifier("1.0"), S.ArbitrarySpecifier("1.0.0")):
+              S.ArbitrarySpecifier("1.0"), S.ArbitrarySpecifier("1.0"), S.ArbitrarySpecifier("1.0.0"),
+              # spelling twins: equal only if the library says so - then hashes must agree too
+              S.parse_version_specifier("===1.0rc1"), S.parse_version_specifier("===1.0RC1"),
+              S.parse_version_specifier("===abc"), S.parse_version_specifier("===ABC"),
+              S.parse_version_specifier(">=1.0rc1"), S.parse_version_specifier(">=1.0RC1"), S.parse_version_specifier(">=1.0c1"),
+              S.parse_version_specifier("==1.0.post1"), S.parse_version_specifier("==1.0-1"),
+              S.parse_version_specifier(">=v1.0"), S.parse_version_specifier(">= 1.0"),
+              S.GenericSpecifier("==", "A"), S.GenericSpecifier("in", "A"), S.GenericSpecifier("!=", "a"),
+              S.GenericSpecifier("!=", "a")):
         _add(ctx, zoo, x, 10 ** 6)
     ctx.shape("pair:any-vs-range")
     n = 120 if ctx.tier == "quick" else 1500
@@ -269,6 +290,8 @@ def _marker_part(ctx):
             'python_full_version >= "3.8"', 'python_full_version >= "3.8.0"', "", "<empty>", 'extra == "Foo_Bar"',
             'extra == "foo-bar"', 'python_version >= "3.8" and python_version < "3.10"',
             'python_version < "3.10" and python_version >= "3.8"',
+            'os_name == "NT"', 'os_name == "nt"', "os_name == 'nt'", 'os_name=="nt"', 'extra == "FOO-BAR"', 'extra == "foo_bar"',
+            'python_version >= "3.8.0"', 'platform_release >= "5.10"', 'platform_release >= "5.10.0"',
             # literal-on-the-left in / not in (F4 stratum): equal to the forward atom, different meaning
             '"a" in os_name', 'os_name in "a"', '"lin" not in sys_platform', 'sys_platform not in "lin"']
     for t in hand:
